@@ -96,6 +96,15 @@ def run(run):
                 # round trip through the tree: path -> tree -> path -> tree
                 t3 = ct.ContractionTree.from_path(net.c_inputs(), net.c_output(), net.c_sizes(), path=t1.get_path())
                 add({"kind": "from_lin", "N": n, "path": path, "ch": ch0(t3)}, dict(d0, api="from_path(get_path())"))
+                # get_subtree: the local neighbourhoods subtree reconfiguration works on
+                for _ in range(2):
+                    node = rng.choice(list(t1.children))
+                    size = rng.randint(2, n)
+                    search = rng.choice(["bfs", "dfs", "random"])
+                    sl, br = t1.get_subtree(node, size, search=search, seed=rng.randrange(100))
+                    add({"kind": "subtree", "N": n, "ch": ch0(t1), "node": frozenset(node), "size": size,
+                         "leaves": {frozenset(x) for x in sl}, "branches": {frozenset(x) for x in br}},
+                        dict(d0, api=f"get_subtree(size={size}, search={search})"))
                 # flat_tree: nested tuples must denote the same node set
                 ft = t1.flat_tree()
                 nodes = set()
